@@ -27,11 +27,21 @@ pub fn plan() -> Plan {
     single.name = "c09-single";
     single.stepping = Stepping::Single;
     single.ops = (60, 250);
-    let profiles = vec![p, hostile, single];
+    // acknowledgement flows that span a reconnect: the PUBRELs of a resumed session are sent again and their
+    // PUBCOMPs are solicited acknowledgements
+    let mut resume = p.clone();
+    resume.name = "c09-resume";
+    resume.persistent_pm = 700;
+    resume.qos_weights = [1, 2, 5];
+    resume.w.link_drop = 8;
+    resume.w.connect = 14;
+    resume.w.ack = 10;
+    resume.burst_pm = 100;
+    let profiles = vec![p, hostile, single, resume];
     Plan {
         profiles,
         directed: vec![],
-        quick_histories: 300,
+        quick_histories: 1200,
         thorough_histories: 160_000,
         s5: None,
         enumerate_session_end: None,
